@@ -4,4 +4,5 @@ import NavisModel.Props.C08
 import NavisModel.Props.C09
 import NavisModel.Props.C10
 import NavisModel.Props.C12
+import NavisModel.Props.C19
 import NavisModel.Props.C20
